@@ -28,19 +28,24 @@
 (* functions serve model checking (Cache), schedule generation (CacheGen)  *)
 (* and trace validation (CacheTrace).                                      *)
 (*                                                                         *)
-(* Values: every value has NChunks = 2 chunks; chunk = [k, v, i] (key it   *)
-(* was written for, value symbol, index).  Hole = zero bytes.  Part-level  *)
-(* values are fixed per id: ValChunks(id, PV).                             *)
+(* Values: every cacheable value has NChunks = 2 chunks; chunk = [k, v, i]  *)
+(* (key it was written for, value symbol, index).  Hole = zero bytes.      *)
+(* Part-level values: PV = a part of 2 chunks (<= MaxPartSizeBytes, cache  *)
+(* eligible), PB = a part of 4 chunks, LARGER than the cache part store's  *)
+(* MaxPartSizeBytes (3 chunks in the harness): PutPart of PB must leave no *)
+(* cached entry for the id (oversized hint + Remove), GetPart of a hinted  *)
+(* id bypasses the cache, a fill-on-miss of PB is abandoned.               *)
 (***************************************************************************)
 EXTENDS Integers, Sequences, FiniteSets, TLC
 
-CONSTANTS Threads, Keys, Vals, PV, Deviations
+CONSTANTS Threads, Keys, Vals, PV, PB, Deviations
 
 NChunks == 2
 VSize == 2                         \* size of every value (in chunks) as seen by the size-limit checker
 Chunk(k, v, i) == [k |-> k, v |-> v, i |-> i]
 Hole == [k |-> "0", v |-> "0", i |-> 0]
 ValChunks(k, v) == <<Chunk(k, v, 1), Chunk(k, v, 2)>>
+PartChunks(k, v) == IF v = PB THEN [i \in 1..4 |-> Chunk(k, PB, i)] ELSE ValChunks(k, v)   \* bytes of a part
 
 Dev(tag) == tag \in Deviations
 
@@ -52,21 +57,30 @@ NoOp == [kind |-> "", k |-> "", v |-> ""]
 InitState(cfg, P) ==
   [cfg |-> cfg,
    pc |-> [t \in Threads |-> "idle"], op |-> [t \in Threads |-> NoOp], ev |-> [t \in Threads |-> <<>>],
-   hd |-> [t \in Threads |-> 0], res |-> [t \in Threads |-> NoRes], cap |-> [t \in Threads |-> 0],
+   hd |-> [t \in Threads |-> 0], res |-> [t \in Threads |-> NoRes], inval |-> [t \in Threads |-> FALSE],
    nops |-> [t \in Threads |-> 0],
    trk |-> [k \in Keys |-> -1], heap |-> {}, clk |-> 1, mu |-> "free",
    file |-> [k \in Keys |-> 0], ino |-> <<>>,
-   inner |-> [k \in Keys |-> k \in P], epoch |-> [k \in Keys |-> 0], absP |-> [k \in Keys |-> k \in P],
-   stored |-> [k \in Keys |-> {}], sawA |-> [t \in Threads |-> FALSE], sawP |-> [t \in Threads |-> FALSE],
+   inner |-> [k \in Keys |-> IF k \in P THEN PV ELSE ""],      \* inner part store: id -> value ("" = absent)
+   hint |-> [k \in Keys |-> FALSE],                            \* cachePartStore.oversizedHints
+   absV |-> [k \in Keys |-> IF k \in P THEN {PV} ELSE {}], old |-> [t \in Threads |-> ""], ovl |-> [t \in Threads |-> FALSE],
+   stored |-> [k \in Keys |-> {}], sawA |-> [t \in Threads |-> FALSE], sawV |-> [t \in Threads |-> {}],
    panicked |-> FALSE, unsync |-> FALSE]
 
 \* ------------------------------------------------------------ what the code is
 Atomic(S) == S.cfg.pers = "mem" \/ ~Dev("D-C19-partial-read")     \* value published in one step
 Racy(S) == S.cfg.pers = "mem" /\ Dev("D-C19-inmem-map-race")      \* persistor map touched outside mu
-PartOp(o) == o.kind \in {"pput", "pget", "pdel"}
-PreStore(o) == o.kind \in {"cset", "pput"}                        \* Set(size>=0): track first, then store
-\* intended design: part bytes obtained before a DeletePart began never enter the cache afterwards
-Guarded(S, t) == PartOp(S.op[t]) /\ ~Dev("D-C19-stale-after-delete") /\ S.epoch[S.op[t].k] # S.cap[t]
+IsPut(o) == o.kind \in {"pput", "pputi"}                          \* PutPart with a tx / with tx = nil (inline)
+IsWrite(o) == IsPut(o) \/ o.kind = "pdel"
+PartOp(o) == IsWrite(o) \/ o.kind = "pget"
+PreStore(o) == o.kind = "cset" \/ IsPut(o)                         \* Set(size>=0): track first, then store
+\* intended design: part bytes obtained before a later PutPart / DeletePart of the id began never enter the
+\* cache afterwards (inval[t]: a write of the id began after thread t obtained its bytes)
+Guarded(S, t) == PartOp(S.op[t]) /\ ~Dev("D-C19-stale-after-delete") /\ S.inval[t]
+Captured(S, u, k) == /\ S.op[u].k = k
+                     /\ \/ IsPut(S.op[u]) /\ S.pc[u] \notin {"idle", "done"}
+                        \/ S.op[u].kind = "pget" /\ S.pc[u] \in {"s.enter", "s.r1", "s.r2", "s.exit", "evict"}
+Invalidate(S, t, k) == [u \in Threads |-> IF u # t /\ Captured(S, u, k) THEN TRUE ELSE S.inval[u]]
 
 \* ------------------------------------------------------------------- LFU policy
 TrackedKeys(trk) == {k \in Keys : trk[k] >= 0}
@@ -84,12 +98,15 @@ EvictLoop(cfg, trk, h, acc) ==
   ELSE IF h = {} THEN [trk |-> trk, heap |-> h, ev |-> acc, panic |-> Dev("D-C19-lfu-oversize-panic")]
   ELSE LET e == MinEntry(h) IN EvictLoop(cfg, [trk EXCEPT ![e.key] = -1], h \ {e}, Append(acc, e.key))
 
-Done(S, t, r) == [S EXCEPT !.pc[t] = "done", !.res[t] = r, !.hd[t] = 0, !.ev[t] = <<>>]
+Done(S, t, r) == [S EXCEPT !.pc[t] = "done", !.res[t] = r, !.hd[t] = 0, !.ev[t] = <<>>, !.inval[t] = FALSE]
 
 \* state of thread t once its eviction list is exhausted
 AfterEvict(S, t) ==
   IF PreStore(S.op[t]) THEN [S EXCEPT !.pc[t] = "s.enter"]
-  ELSE Done(S, t, IF S.op[t].kind = "pget" THEN [st |-> "hit", chunks |-> ValChunks(S.op[t].k, PV)] ELSE OkRes)
+  ELSE IF S.op[t].kind = "pget"      \* fill completed: the fill goroutine clears the oversized hint
+       THEN Done([S EXCEPT !.hint[S.op[t].k] = IF Guarded(S, t) THEN @ ELSE FALSE], t,
+                 [st |-> "hit", chunks |-> PartChunks(S.op[t].k, S.op[t].v)])
+       ELSE Done(S, t, OkRes)
 
 \* critical section  mu.Lock; TrackSetAndReturnEvictedKeys(key, size); mu.Unlock  of GenericCache.Set
 DoTrackSet(S, t) ==
@@ -139,7 +156,10 @@ StoreWrite(S, t, i) ==
       v == S.op[t].v
       h == S.hd[t]
       S1 == IF h > 0 THEN [S EXCEPT !.ino[h] = WriteAt(S.ino[h], i, Chunk(k, v, i))] ELSE S
-  IN IF i < NChunks THEN [S1 EXCEPT !.pc[t] = "s.r2"]
+  IN IF v = PB       \* fill-on-miss of an oversized part: the reader closes the pipe with
+                     \* errPartLargerThanCacheThreshold before any byte; Store returns the error
+     THEN [S EXCEPT !.pc[t] = "s.exit", !.hd[t] = -2]
+     ELSE IF i < NChunks THEN [S1 EXCEPT !.pc[t] = "s.r2"]
      ELSE LET S2 == IF h = -1 THEN S1
                     ELSE IF h = 0
                          THEN IF Guarded(S1, t) THEN S1
@@ -150,8 +170,18 @@ StoreWrite(S, t, i) ==
 
 \* after persistor.Store returned: Set(size>=0) returns; Set(-1) now tracks the key (needs mu)
 StoreExit(S, t) ==
-  IF PreStore(S.op[t]) THEN {Done(S, t, OkRes)}
+  IF S.hd[t] = -2 THEN {[S EXCEPT !.pc[t] = "evict", !.ev[t] = <<S.op[t].k>>]}   \* Set's error path: Remove(key)
+  ELSE IF PreStore(S.op[t]) THEN {Done(S, t, OkRes)}
   ELSE IF S.mu = "free" THEN {DoTrackSet(S, t)} ELSE {}
+
+\* failed fill: GenericCache.Set removes the key (outside mu), TrackRemove (mu), returns the error; the fill
+\* goroutine marks the oversized hint and calls cache.Remove (mu); the caller got the part from the inner store
+FailCleanup(S, t) ==
+  LET k == S.op[t].k
+      S1 == [S EXCEPT !.file[k] = 0, !.unsync = S.unsync \/ Racy(S)]
+  IN IF S.mu # "free" THEN {}
+     ELSE {Done([S3 EXCEPT !.hint[k] = TRUE], t, [st |-> "hit", chunks |-> PartChunks(k, PB)])
+           : S3 \in UNION {TrackRemoveSet(S2, k) : S2 \in TrackRemoveSet(S1, k)}}
 
 \* reads of the handle returned by Get (outside mu)
 GetRead1(S, t) ==
@@ -163,12 +193,27 @@ GetRead2(S, t) ==
   Done(S, t, [st |-> "hit", chunks |-> S.res[t].chunks \o SubSeq(c, 2, Len(c))])
 
 \* --------------------------------------------------------------- thread steps
+\* inner PutPart of value o.v (the tee'd reader decides cache eligibility)
+PutBegin(S0, S, t, o) ==
+  [S0 EXCEPT !.inner[o.k] = o.v, !.old[t] = S.inner[o.k], !.inval = Invalidate(S0, t, o.k), !.pc[t] = "commit"]
+
+\* cache update of PutPart / DeletePart (tx after-commit hook, or inline when tx = nil); needs mu
+CommitSet(S, t) ==
+  LET k == S.op[t].k IN
+  IF S.mu # "free" THEN {}
+  ELSE IF IsPut(S.op[t])
+       THEN IF S.op[t].v = PB
+            THEN \* oversized: markOversizedHint + cache.Remove - NO cached entry may remain for the id
+                 {Done([S1 EXCEPT !.file[k] = 0, !.hint[k] = TRUE], t, OkRes) : S1 \in TrackRemoveSet(S, k)}
+            ELSE {DoTrackSet([S EXCEPT !.hint[k] = FALSE], t)}
+       ELSE {Done([S1 EXCEPT !.file[k] = 0, !.hint[k] = FALSE], t, OkRes) : S1 \in TrackRemoveSet(S, k)}
+
 \* first step of an operation: from invocation to the first gate
 BeginRaw(S, t, o) ==
   IF S.pc[t] \notin {"idle", "done"} THEN {}
   ELSE
   LET S0 == [S EXCEPT !.op[t] = o, !.nops[t] = S.nops[t] + 1, !.res[t] = NoRes, !.ev[t] = <<>>, !.hd[t] = 0,
-                      !.cap[t] = 0, !.pc[t] = "idle"]
+                      !.inval[t] = FALSE, !.pc[t] = "idle"]
       k == o.k
   IN CASE o.kind = "cset" -> IF S.mu = "free" THEN {DoTrackSet(S0, t)} ELSE {}
        [] o.kind = "csets" -> {[S0 EXCEPT !.pc[t] = "s.enter"]}
@@ -176,25 +221,22 @@ BeginRaw(S, t, o) ==
             IF S.mu # "free" THEN {}
             ELSE {IF S1.file[k] = 0
                   THEN (IF o.kind = "cget" THEN Done(S1, t, [st |-> "miss", chunks |-> <<>>])
-                        ELSE [S1 EXCEPT !.pc[t] = "inner"])
+                        ELSE \* GetPart consults the oversized hint right after the cache miss, before the inner store
+                             [S1 EXCEPT !.pc[t] = "inner", !.hd[t] = IF S1.hint[k] THEN -3 ELSE 0])
                   ELSE [S1 EXCEPT !.pc[t] = "g.r1", !.hd[t] = S1.file[k], !.res[t] = [st |-> "hit", chunks |-> <<>>]]
                   : S1 \in TrackGetSet(S0, k)}
        [] o.kind = "crem" ->
             IF S.mu # "free" THEN {}
             ELSE {Done([S1 EXCEPT !.file[k] = 0], t, OkRes) : S1 \in TrackRemoveSet(S0, k)}
-       [] o.kind = "pput" -> {[S0 EXCEPT !.inner[k] = TRUE, !.absP[k] = TRUE, !.cap[t] = S.epoch[k], !.pc[t] = "commit"]}
-       [] o.kind = "pdel" -> {[S0 EXCEPT !.inner[k] = FALSE, !.epoch[k] = S.epoch[k] + 1, !.pc[t] = "commit"]}
+       [] o.kind = "pput" -> {PutBegin(S0, S, t, o)}
+       [] o.kind = "pputi" -> CommitSet(PutBegin(S0, S, t, o), t)      \* tx = nil: cache update inline
+       [] o.kind = "pdel" -> {[S0 EXCEPT !.inner[k] = "", !.old[t] = S.inner[k], !.inval = Invalidate(S0, t, k), !.pc[t] = "commit"]}
        [] OTHER -> {}
-
-\* ghost absP[id]: id is present in SOME linearisation of the calls so far.  A PutPart makes it present at
-\* its inner put; a DeletePart makes it absent when its Remove has run - unless a PutPart of the same id is
-\* still in flight, which may then be ordered after the delete.
-PutInFlight(S, t, k) == \E w \in Threads \ {t} : S.op[w].kind = "pput" /\ S.op[w].k = k /\ S.pc[w] \notin {"idle", "done"}
 
 StepRaw(S, t) ==
   LET p == S.pc[t]
       k == S.op[t].k
-  IN CASE p = "evict" -> {EvictStep(S, t)}
+  IN CASE p = "evict" -> IF S.hd[t] = -2 THEN FailCleanup(S, t) ELSE {EvictStep(S, t)}
        [] p = "s.enter" -> {StoreOpen(S, t)}
        [] p = "s.r1" -> {StoreWrite(S, t, 1)}
        [] p = "s.r2" -> {StoreWrite(S, t, 2)}
@@ -202,18 +244,18 @@ StepRaw(S, t) ==
        [] p = "g.r1" -> {GetRead1(S, t)}
        [] p = "g.r2" -> {GetRead2(S, t)}
        [] p = "inner" ->      \* decorated inner store GetPart; present => cache.go starts the fill goroutine
-            {IF ~S.inner[k] THEN Done(S, t, [st |-> "notfound", chunks |-> <<>>])
-             ELSE [S EXCEPT !.cap[t] = S.epoch[k], !.pc[t] = "s.enter"]}
+            {IF S.inner[k] = "" THEN Done(S, t, [st |-> "notfound", chunks |-> <<>>])
+             ELSE IF S.hd[t] = -3 THEN Done(S, t, [st |-> "hit", chunks |-> PartChunks(k, S.inner[k])])   \* hinted: bypass, no fill
+             ELSE [S EXCEPT !.op[t].v = S.inner[k], !.pc[t] = "s.enter"]}
        [] p = "commit" ->     \* tx after-commit hook: Set (PutPart) / Remove (DeletePart)
-            IF S.mu # "free" THEN {}
-            ELSE IF S.op[t].kind = "pput" THEN {DoTrackSet(S, t)}
-            ELSE {Done([S1 EXCEPT !.file[k] = 0, !.absP[k] = PutInFlight(S, t, k)], t, OkRes) : S1 \in TrackRemoveSet(S, k)}
+            CommitSet(S, t)
        [] OTHER -> {}
 
 \* cheap enabledness test of StepRaw (kept equal to StepRaw # {} by invariant InvCanStep)
 CanStep(S, t) ==
-  \/ S.pc[t] \in {"evict", "s.enter", "s.r1", "s.r2", "g.r1", "g.r2", "inner"}
-  \/ S.pc[t] = "s.exit" /\ (PreStore(S.op[t]) \/ S.mu = "free")
+  \/ S.pc[t] \in {"s.enter", "s.r1", "s.r2", "g.r1", "g.r2", "inner"}
+  \/ S.pc[t] = "evict" /\ (S.hd[t] # -2 \/ S.mu = "free")
+  \/ S.pc[t] = "s.exit" /\ (S.hd[t] = -2 \/ PreStore(S.op[t]) \/ S.mu = "free")
   \/ S.pc[t] = "commit" /\ S.mu = "free"
 
 \* ------------------------------------------------- bookkeeping after every step
@@ -226,29 +268,48 @@ Norm(S) == LET refd == Refd(S)
                cl == [i \in 1..Len(S.ino) |-> IF i \in refd THEN S.ino[i] ELSE <<>>]
            IN [S EXCEPT !.ino = Trim(cl, refd)]
 
-\* ground truth for PartCacheExact: during a GetPart(id) call, was id ever absent (in the inner store) /
-\* possibly present (in the inner store, or in some linearisation: ghost absP, or its DeletePart still
-\* running - a DeletePart counts as complete only when its after-commit Remove ran)?
-MayPresent(S, id) == S.inner[id] \/ S.absP[id] \/ \E w \in Threads : S.op[w].kind = "pdel" /\ S.op[w].k = id /\ S.pc[w] = "commit"
+\* Ground truth for PartCacheExact.  During a GetPart(id) call: was id ever absent in the inner store (sawA), and
+\* which values may id have had in SOME linearisation of the calls (sawV)?  A PutPart / DeletePart counts as
+\* complete only when its cache update (after-commit hook) ran, so while it is in flight both the value it
+\* replaces (old) and its own value are possible; absV[id] keeps the values that remain possible because writes of
+\* the id overlapped (ovl) and may be ordered either way - deliberately permissive, never stricter than
+\* linearisability.
+WritesInFlight(S, id) == {w \in Threads : IsWrite(S.op[w]) /\ S.op[w].k = id /\ S.pc[w] \notin {"idle", "done"}}
+MayVals(S, id) == ({S.inner[id]} \cup S.absV[id] \cup {S.old[w] : w \in WritesInFlight(S, id)}) \ {""}
+GhostUpd(S0, t, S1) ==
+  LET k == S1.op[t].k
+      begins == S0.pc[t] \in {"idle", "done"} /\ IsWrite(S1.op[t])
+      ends == IsWrite(S1.op[t]) /\ S1.pc[t] = "done" /\ (S0.pc[t] \notin {"idle", "done"} \/ begins)
+      others == WritesInFlight(S0, k) \ {t}
+      o1 == IF begins THEN [u \in Threads |-> IF u = t THEN others # {} ELSE IF u \in others THEN TRUE ELSE S1.ovl[u]]
+            ELSE S1.ovl
+      a1 == IF begins /\ IsPut(S1.op[t]) THEN [S1.absV EXCEPT ![k] = S1.absV[k] \cup {S1.op[t].v}] ELSE S1.absV
+      stillPuts == {S1.op[w].v : w \in {x \in others : IsPut(S1.op[x])}}
+      a2 == IF ~ends THEN a1
+            ELSE IF IsPut(S1.op[t]) THEN [a1 EXCEPT ![k] = IF o1[t] THEN a1[k] ELSE {S1.op[t].v}]
+            ELSE [a1 EXCEPT ![k] = stillPuts]
+  IN IF ends THEN [S1 EXCEPT !.ovl = [o1 EXCEPT ![t] = FALSE], !.old[t] = "", !.absV = a2]
+     ELSE [S1 EXCEPT !.ovl = o1, !.absV = a2]
 SawUpd(S0, t, S1) ==
   LET inflight0(u) == S0.op[u].kind = "pget" /\ S0.pc[u] \notin {"idle", "done"}
       begins(u) == u = t /\ S0.pc[t] \in {"idle", "done"} /\ S1.op[t].kind = "pget"
   IN [S1 EXCEPT
        !.sawA = [u \in Threads |->
-                   IF begins(u) THEN ~S0.inner[S1.op[u].k] \/ ~S1.inner[S1.op[u].k]
-                   ELSE IF inflight0(u) THEN S0.sawA[u] \/ ~S1.inner[S1.op[u].k] ELSE S1.sawA[u]],
-       !.sawP = [u \in Threads |->
-                   IF begins(u) THEN MayPresent(S0, S1.op[u].k) \/ MayPresent(S1, S1.op[u].k)
-                   ELSE IF inflight0(u) THEN S0.sawP[u] \/ MayPresent(S1, S1.op[u].k) ELSE S1.sawP[u]]]
+                   IF begins(u) THEN S0.inner[S1.op[u].k] = "" \/ S1.inner[S1.op[u].k] = ""
+                   ELSE IF inflight0(u) THEN S0.sawA[u] \/ S1.inner[S1.op[u].k] = "" ELSE S1.sawA[u]],
+       !.sawV = [u \in Threads |->
+                   IF begins(u) THEN MayVals(S0, S1.op[u].k) \cup MayVals(S1, S1.op[u].k)
+                   ELSE IF inflight0(u) THEN S0.sawV[u] \cup MayVals(S1, S1.op[u].k) ELSE S1.sawV[u]]]
 
 Post(S0, t, S1) ==
-  LET a == IF \E u \in Threads : S1.op[u].kind = "pget" THEN SawUpd(S0, t, S1) ELSE S1
+  LET g == IF IsWrite(S1.op[t]) THEN GhostUpd(S0, t, S1) ELSE S1
+      a == IF \E u \in Threads : g.op[u].kind = "pget" THEN SawUpd(S0, t, g) ELSE g
   IN IF Len(a.ino) = 0 THEN a ELSE Norm(a)
 BeginSet(S, t, o) == {Post(S, t, S1) : S1 \in BeginRaw(S, t, o)}
 StepSet(S, t) == {Post(S, t, S1) : S1 \in StepRaw(S, t)}
 
 CacheOps == [kind : {"cset", "csets"}, k : Keys, v : Vals] \cup [kind : {"cget", "crem"}, k : Keys, v : {""}]
-PartOps == [kind : {"pput", "pget", "pdel"}, k : Keys, v : {PV}]
+PartOps == [kind : {"pput", "pputi"}, k : Keys, v : {PV, PB}] \cup [kind : {"pget", "pdel"}, k : Keys, v : {PV}]
 
 \* ------------------------------------------------------------------ properties
 \* "returns only values from completed Set calls for that key": the bytes returned by Get(k) are the
@@ -259,12 +320,15 @@ GetOK(S, t) ==
 GetReturnsCompletedSet(S) == \A t \in Threads : (S.pc[t] = "done" /\ S.op[t].kind = "cget") => GetOK(S, t)
 
 \* cachePartStore.GetPart(id) in {bytes stored under id, not-found}: never partial, never another id's
-\* bytes, not-found only if id was absent at some moment of the call, bytes only if id was stored (or
-\* its DeletePart still in progress) at some moment of the call
-PartGetWhole(S, t) == S.res[t].st = "hit" /\ S.res[t].chunks = ValChunks(S.op[t].k, PV)
+\* bytes; not-found only if id was absent at some moment of the call; bytes only if they are a value id may have
+\* had at some moment of the call (never the bytes of a deleted or overwritten part afterwards)
+PartGetValue(S, t) == IF S.res[t].st # "hit" THEN ""
+                      ELSE IF S.res[t].chunks = PartChunks(S.op[t].k, PV) THEN PV
+                      ELSE IF S.res[t].chunks = PartChunks(S.op[t].k, PB) THEN PB ELSE ""
+PartGetWhole(S, t) == PartGetValue(S, t) # ""
 PartGetExact(S, t) == S.res[t].st = "notfound" \/ PartGetWhole(S, t)                 \* never partial / foreign
 PartGetFresh(S, t) == /\ S.res[t].st = "notfound" => S.sawA[t]
-                      /\ PartGetWhole(S, t) => S.sawP[t]                               \* never stale after delete
+                      /\ PartGetWhole(S, t) => PartGetValue(S, t) \in S.sawV[t]      \* never stale
 PartGetOK(S, t) == PartGetExact(S, t) /\ PartGetFresh(S, t)
 PartDone(S, t) == S.pc[t] = "done" /\ S.op[t].kind = "pget"
 PartCacheExact(S) == \A t \in Threads : PartDone(S, t) => PartGetOK(S, t)
@@ -273,10 +337,13 @@ NoPanic(S) == ~S.panicked
 NoUnsyncedMapAccess(S) == ~S.unsync
 
 \* --------------------------------------------------------------- model checking
-CONSTANTS Level, Persistors, LimitKind, LimitN, MaxOps
+CONSTANTS Level, Persistors, LimitKind, LimitN, MaxOps,
+          PartVals      \* part values written by PutPart in model checking (subset of {PV, PB})
 VARIABLE S
 
-Ops == IF Level = "cache" THEN CacheOps ELSE PartOps
+\* (the inline PutPart "pputi" is PutPart + commit without a gate in between: a sub-behaviour of "pput")
+Ops == IF Level = "cache" THEN CacheOps
+       ELSE [kind : {"pput"}, k : Keys, v : PartVals] \cup [kind : {"pget", "pdel"}, k : Keys, v : {PV}]
 Init == \E p \in Persistors : \E P \in (IF Level = "part" THEN SUBSET Keys ELSE {{}}) :
           S = InitState([pers |-> p, lk |-> LimitKind, ln |-> LimitN], P)
 Next == \E t \in Threads :
